@@ -2,6 +2,7 @@ package vc
 
 import (
 	"go/types"
+	"strings"
 
 	"golang.org/x/tools/go/ssa"
 )
@@ -80,12 +81,80 @@ func (u *Unit) assume(st *State, t Term) {
 	st.pc = u.defs.Define("pc", And(st.pc, t))
 }
 
+// matcher selects heap classes by exact name or by prefix.
+type matcher struct {
+	exact  string
+	prefix string
+}
+
+func (m matcher) match(c string) bool {
+	if m.exact != "" {
+		return c == m.exact
+	}
+	return strings.HasPrefix(c, m.prefix)
+}
+
+func matchAny(ms []matcher, c string) bool {
+	for _, m := range ms {
+		if m.match(c) {
+			return true
+		}
+	}
+	return false
+}
+
+// havocEvent: at this point either every class except pats (all) or exactly the classes in pats was forgotten.
+type havocEvent struct {
+	prev int
+	all  bool
+	pats []matcher
+	// merge events join several generations (state merge at a control-flow join)
+	merge bool
+	preds []int
+	pcs   []Term
+}
+
 // heapGet returns the current array of a heap class.
 func (u *Unit) heapGet(st *State, class string, sort Sort) Term {
 	if t, ok := st.heap[class]; ok {
 		return t
 	}
-	return u.genConst(st.gen, class, sort)
+	return u.resolveGen(st.gen, class, sort)
+}
+
+// resolveGen finds the value a class has in generation g when the state holds no explicit entry for it.
+func (u *Unit) resolveGen(g int, class string, sort Sort) Term {
+	for g != 0 {
+		e := u.events[g]
+		if e.merge {
+			key := class + "@m" + itoa(g)
+			if t, ok := u.gens[key]; ok {
+				return t
+			}
+			var acc Term
+			same := true
+			for i := len(e.preds) - 1; i >= 0; i-- {
+				t := u.resolveGen(e.preds[i], class, sort)
+				if i == len(e.preds)-1 {
+					acc = t
+				} else if t.S != acc.S {
+					same = false
+					acc = Ite(e.pcs[i], t, acc)
+				}
+			}
+			if !same {
+				acc = u.defs.Define("Hm_"+class, acc)
+			}
+			u.gens[key] = acc
+			return acc
+		}
+		havoced := e.all != matchAny(e.pats, class)
+		if havoced {
+			break
+		}
+		g = e.prev
+	}
+	return u.genConst(g, class, sort)
 }
 
 func (u *Unit) genConst(gen int, class string, sort Sort) Term {
@@ -133,19 +202,36 @@ func (u *Unit) heapSet(st *State, class string, t Term) {
 	st.heap[class] = t
 }
 
-// havocAll forgets the whole heap (not promoted cells, not ghosts).
-func (u *Unit) havocAll(st *State) {
+func (u *Unit) newEvent(st *State, all bool, pats []matcher) {
+	if u.events == nil {
+		u.events = map[int]havocEvent{}
+	}
 	u.genCtr++
+	u.events[u.genCtr] = havocEvent{prev: st.gen, all: all, pats: pats}
 	st.gen = u.genCtr
-	st.heap = map[string]Term{}
+	for c := range st.heap {
+		if all != matchAny(pats, c) {
+			delete(st.heap, c)
+		}
+	}
+}
+
+// havocAll forgets the whole heap (not promoted cells, not ghosts).
+func (u *Unit) havocAll(st *State) { u.newEvent(st, true, nil) }
+
+// havocAllExcept forgets every class not selected by keep.
+func (u *Unit) havocAllExcept(st *State, keep []matcher) { u.newEvent(st, true, keep) }
+
+// havocOnly forgets the selected classes (known or not yet known).
+func (u *Unit) havocOnly(st *State, pats []matcher) {
+	if len(pats) == 0 {
+		return
+	}
+	u.newEvent(st, false, pats)
 }
 
 func (u *Unit) havocClass(st *State, class string) {
-	sort, ok := u.classSort[class]
-	if !ok {
-		return
-	}
-	st.heap[class] = u.defs.Fresh("Hh_"+class, sort)
+	u.havocOnly(st, []matcher{{exact: class}})
 }
 
 // mergeStates merges states arriving on several edges; conds[i] is the edge's full path condition.
@@ -185,9 +271,8 @@ func (u *Unit) mergeStates(sts []*State) *State {
 		for c := range u.classSort {
 			classes[c] = true
 		}
-		u.genCtr++
-		res.gen = u.genCtr
 	}
+	// values are computed against the incoming states before the merged generation is created
 	res.heap = map[string]Term{}
 	for _, c := range sortedKeys(classes) {
 		sort := u.classSort[c]
@@ -211,6 +296,20 @@ func (u *Unit) mergeStates(sts []*State) *State {
 			continue
 		}
 		res.heap[c] = u.defs.Define("Hj_"+c, acc)
+	}
+	if !sameGen {
+		// classes first touched after the merge are unknown on at least one side: a fresh generation
+		if u.events == nil {
+			u.events = map[int]havocEvent{}
+		}
+		u.genCtr++
+		ev := havocEvent{merge: true}
+		for _, s := range live {
+			ev.preds = append(ev.preds, s.gen)
+			ev.pcs = append(ev.pcs, s.pc)
+		}
+		u.events[u.genCtr] = ev
+		res.gen = u.genCtr
 	}
 	// cells
 	cells := map[*Cell]bool{}
